@@ -40,7 +40,7 @@ Theorem C10_from_regex_total : forall sigma r, (forall a, In a (re_syms r) -> In
 Proof. exact compile_re_total. Qed.
 Print Assumptions C10_from_regex_total.
 
-(* upper bound 0 admits no copy (the repaired defect): r{0,0} denotes and compiles to {""} *)
+(* with upper bound 0 no copy is accepted (the repaired defect): r{0,0} denotes and compiles to {""} *)
 Theorem C10_upper_bound_zero : forall sigma r,
   L_nfa (nfa_of sigma (fst (build sigma (RRep r 0 (Some 0)) 0))) =L l_eps.
 Proof.
